@@ -117,7 +117,68 @@ def check_controlled():
     return [_rep(key, obls, "C08")]
 
 
-ENGINE_CHECKS = [check_powers, check_controlled]
+def check_phase_by():
+    """phase_by(g, turns, i) is g conjugated by the Z rotation of `turns` full turns on qubit i, up to global phase: for all exponents
+    (symbolic), at every multiple of 1/8 turn in [-1, 1] and two generic values (the code special-cases particular turns)."""
+    import cirq
+
+    e, s, ph = Angle.sym("e"), Angle.sym("s"), Angle.sym("p")
+    key = "cirq-core/cirq/ops/common_gates.py:{X,Y,Z,CZ}PowGate._phase_by_ + PhasedXPowGate/PhasedXZGate._phase_by_"
+    fams = {
+        "XPowGate": (lambda: cirq.XPowGate(exponent=e, global_shift=s), 1), "YPowGate": (lambda: cirq.YPowGate(exponent=e, global_shift=s), 1),
+        "ZPowGate": (lambda: cirq.ZPowGate(exponent=e, global_shift=s), 1), "CZPowGate": (lambda: cirq.CZPowGate(exponent=e, global_shift=s), 2),
+        "PhasedXPowGate": (lambda: cirq.PhasedXPowGate(phase_exponent=ph, exponent=e), 1),
+        "PhasedXZGate": (lambda: cirq.PhasedXZGate(x_exponent=e, z_exponent=Angle.sym("z"), axis_phase_exponent=ph), 1),
+    }
+    turns_list = [Fraction(k, 8) for k in range(-8, 9)] + [Fraction(1, 10), Fraction(-3, 7)]
+    from contracts.C19_qasm import proportional_exact
+    obls = []
+    for name, (mk, nq) in fams.items():
+        for idx in range(nq):
+            for turns in turns_list:
+                def f(name=name, mk=mk, nq=nq, idx=idx, turns=turns):
+                    from contracts.C19_qasm import _Ctx as _QCtx
+                    dyadic = Fraction(float(turns)) == turns
+                    if not dyadic:
+                        # turns that are not exact floats / outside Q(zeta_48): numeric comparison at several parameter values
+                        import random as _r
+                        rr = _r.Random(5)
+                        for _ in range(6):
+                            v = {k: rr.uniform(-2, 2) for k in ("e", "s", "p", "z")}
+                            g = {"XPowGate": lambda: cirq.XPowGate(exponent=v["e"], global_shift=v["s"]), "YPowGate": lambda: cirq.YPowGate(exponent=v["e"], global_shift=v["s"]),
+                                 "ZPowGate": lambda: cirq.ZPowGate(exponent=v["e"], global_shift=v["s"]), "CZPowGate": lambda: cirq.CZPowGate(exponent=v["e"], global_shift=v["s"]),
+                                 "PhasedXPowGate": lambda: cirq.PhasedXPowGate(phase_exponent=v["p"], exponent=v["e"]),
+                                 "PhasedXZGate": lambda: cirq.PhasedXZGate(x_exponent=v["e"], z_exponent=v["z"], axis_phase_exponent=v["p"])}[name]()
+                            r = cirq.phase_by(g, float(turns), idx, default=None)
+                            if r is None:
+                                continue
+                            zt = np.diag([1, np.exp(2j * np.pi * float(turns))])
+                            Zr = zt if nq == 1 else (np.kron(zt, np.eye(2)) if idx == 0 else np.kron(np.eye(2), zt))
+                            if not cirq.allclose_up_to_global_phase(cirq.unitary(r), Zr @ cirq.unitary(g) @ Zr.conj().T, atol=1e-7):
+                                return False, f"phase_by({g!r}, {float(turns)}, {idx}) is not the conjugated gate"
+                        return True, ""
+                    trigpoly.CTX = _QCtx(())
+                    try:
+                        g = mk()
+                        r = cirq.phase_by(g, float(turns), idx, default=None)
+                        if r is None:
+                            return True, ""
+                        U, V = np.asarray(cirq.unitary(g), dtype=object), np.asarray(cirq.unitary(r), dtype=object)
+                    finally:
+                        trigpoly.CTX = None
+                    zt, zi = gs.z_pow(2 * turns), gs.z_pow(-2 * turns)
+                    one = np.array([[1, 0], [0, 1]], dtype=object)
+                    if nq == 1:
+                        Zr, Zi = zt, zi
+                    else:
+                        from contracts.C15_closed_forms import kron
+                        Zr, Zi = (kron(zt, one), kron(zi, one)) if idx == 0 else (kron(one, zt), kron(one, zi))
+                    return proportional_exact(V, _matmul(_matmul(Zr, U), Zi))
+                obls.append(_ob(f"C08/{key}#phase_by-is-Z-conjugation[{name}; qubit {idx}; turns={turns}]", f, case=name))
+    return [_rep(key, obls, "C08")]
+
+
+ENGINE_CHECKS = [check_powers, check_controlled, check_phase_by]
 
 
 # ---- bounded / exhaustive-small stand-ins -------------------------------------------------------------------------------
@@ -276,8 +337,12 @@ CANARIES = [
     dict(name="Z.controlled() specialises even with a global shift", file="cirq-core/cirq/ops/common_gates.py", engine_check=1,
          find="            if result.control_qid_shape == (2,):\n                return cirq.CZPowGate(exponent=self._exponent)", replace="            pass\n        if isinstance(result, controlled_gate.ControlledGate) and result.control_values.is_trivial:\n            if result.control_qid_shape == (2,):\n                return cirq.CZPowGate(exponent=self._exponent)"),
 ]
+CANARIES = CANARIES + [
+    dict(name="phase_by treats phase exponent 1 like 0", file="cirq-core/cirq/ops/common_gates.py", engine_check=2,
+         find="            case 0.0:\n                return XPowGate(exponent=exponent)", replace="            case 0.0 | 1.0:\n                return XPowGate(exponent=exponent)"),
+]
 NOT_COVERED = [
-    "commutation rules, phase_by, has_stabilizer_effect, trace_distance_bound, equality predicates: bounded stand-in only",
+    "commutation rules, phase_by of other gates, has_stabilizer_effect, trace_distance_bound, equality predicates: bounded stand-in only",
     "ControlledGate with arbitrary (qudit / sum-of-products) control values: C04 protocol stand-in; PeriodicValue: not covered",
 ]
 ASSUMPTIONS = ["trigpoly assumptions of C03", "true trace distance of a unitary = sqrt(1 - d^2), d = distance of 0 to the convex hull of its eigenvalues"]
